@@ -190,7 +190,9 @@ def run_variant(prog: dict, variant: Any, keep_outputs: bool = False) -> dict:
             res["compared"] += 1
             if msg:
                 res["problems"].append({"clause": "value", "exc": kind,
-                                        "what": f"{name} ({kind} inputs): {msg}"})
+                                        "what": f"{name} ({kind} inputs): {msg}",
+                                        "nan_minmax": runprog.nan_into_minmax_reduction(
+                                            prog, values)})
     # order independence: the same outputs supplied in reversed order
     if len(outs) > 1 and not res["problems"]:
         try:
@@ -301,6 +303,7 @@ def main(tier: str, only: list[dict] | None = None) -> int:
                                "ops": "+".join(r["ops"]) if len(r["ops"]) <= 2 else "many",
                                "has_zeros_like": any(c["op"] in ("zeros_like", "ones_like")
                                                      for c in by_id[r["id"]]["calls"]),
+                               "nan_into_minmax_reduction": bool(pr.get("nan_minmax")),
                                "what": pr["what"][:80]})
     check_kernels(run, kernels, by_id)
     run.coverage.update({
